@@ -570,6 +570,80 @@ func C14(tier Tier) int {
 			}
 		}
 	}
+	// one holder decoded into repeatedly, the way the node's marshaller does it (Reset, then
+	// Unmarshal): what the holder decoded before must not show in what it decodes next - every
+	// ordered pair of a spread of values of each message type
+	{
+		pick := func(n, want int) []int {
+			var idx []int
+			step := n / want
+			if step < 1 {
+				step = 1
+			}
+			for i := 0; i < n; i += step {
+				idx = append(idx, i)
+			}
+			return append(idx, n-1)
+		}
+		want := 60
+		if tier.Thorough() {
+			want = 160
+		}
+		ti := pick(len(toks), want)
+		for _, i := range ti {
+			for _, j := range ti {
+				first, _ := toks[i].Marshal()
+				second, _ := toks[j].Marshal()
+				h := &esdt.ESDigitalToken{}
+				h.Reset()
+				if h.Unmarshal(first) != nil {
+					continue
+				}
+				h.Reset()
+				err := h.Unmarshal(second)
+				again, _ := h.Marshal()
+				if err != nil || tokenEq(toks[j], h) != "" || !bytes.Equal(again, second) {
+					ws[0].Fail(P, "roundtrip", "reused-holder:ESDigitalToken", fmt.Sprintf("a holder that decoded %x and then (after Reset) %x holds a value that differs from a fresh decode in %q and re-encodes to %x (%v)", first, second, tokenEq(toks[j], h), again, err), "case", fmt.Sprintf("reuse-tok:%d:%d", i, j))
+				}
+				ws[0].Case("reused-holder:token")
+			}
+		}
+		mi := pick(len(metas), want)
+		for _, i := range mi {
+			for _, j := range mi {
+				first, _ := metas[i].Marshal()
+				second, _ := metas[j].Marshal()
+				h := &esdt.MetaData{}
+				if h.Unmarshal(first) != nil {
+					continue
+				}
+				h.Reset()
+				err := h.Unmarshal(second)
+				again, _ := h.Marshal()
+				if err != nil || metaEq(metas[j], h) != "" || !bytes.Equal(again, second) {
+					ws[0].Fail(P, "roundtrip", "reused-holder:MetaData", fmt.Sprintf("a holder that decoded %x and then (after Reset) %x differs from a fresh decode in %q (%v)", first, second, metaEq(metas[j], h), err), "case", fmt.Sprintf("reuse-meta:%d:%d", i, j))
+				}
+				ws[0].Case("reused-holder:metadata")
+			}
+		}
+		for i := range roles {
+			for j := range roles {
+				first, _ := roles[i].Marshal()
+				second, _ := roles[j].Marshal()
+				h := &esdt.ESDTRoles{}
+				if h.Unmarshal(first) != nil {
+					continue
+				}
+				h.Reset()
+				err := h.Unmarshal(second)
+				again, _ := h.Marshal()
+				if err != nil || !listEq(roles[j].Roles, h.Roles) || !bytes.Equal(again, second) {
+					ws[0].Fail(P, "roundtrip", "reused-holder:ESDTRoles", fmt.Sprintf("a holder that decoded %x and then (after Reset) %x holds %q (%v)", first, second, h.Roles, err), "case", fmt.Sprintf("reuse-roles:%d:%d", i, j))
+				}
+				ws[0].Case("reused-holder:roles")
+			}
+		}
+	}
 	// decoded values do not share memory with the buffer they were decoded from: after decoding,
 	// the buffer is overwritten (a reused read buffer) and the decoded value must be unchanged;
 	// appending to a decoded field must not write into the buffer either
